@@ -110,7 +110,7 @@ def classify_diag(d, linemap):
         ln = s.get('line_start', 0)
         info = dict(linemap[ln - 1]) if 0 < ln <= len(linemap) else {}
         # a clause may span several lines: its tags sit at the end of its last line
-        for l2 in range(ln, min(s.get('line_end', ln), len(linemap)) + 1):
+        for l2 in range(ln, min(s.get('line_end', ln), ln + 8, len(linemap)) + 1):
             t2 = linemap[l2 - 1].get('tags')
             if t2 and not info.get('tags'):
                 info['tags'] = t2
